@@ -92,6 +92,20 @@ pub struct PrintOpts {
     pub backref_style: u8,
     /// print `(?(c)yes)` without the `|` whenever the no-branch is empty, also when yes is an alternation
     pub cond_omit_empty_no: bool,
+    /// literal spelling: 0 plain, 1 `\xHH` (code points < 256), 2 `\x{H}`, 3 `\uHHHH`, 4 `\UHHHHHHHH`, 5 cycle through all
+    pub lit_style: u8,
+    /// `^` as `\A`, `$` as `\z`
+    pub anchors_az: bool,
+    /// possessive quantifier `X*+` as atomic group `(?>X*)`
+    pub poss_as_atomic: bool,
+    /// newline literal as a raw newline character instead of `\n`
+    pub raw_newline: bool,
+    /// back-references as relative `\k<-n>`
+    pub rel_backrefs: bool,
+    /// scoped flag groups `(?s:.)`, `(?m:^)`, `(?i:X)` as `(?:(?s).)` etc.
+    pub flags_inline: bool,
+    /// `{n,m}` as `{ n , m }` (only valid under `(?x)`)
+    pub spaced_braces: bool,
 }
 
 impl PrintOpts {
@@ -107,6 +121,7 @@ struct P<'o> {
     toks: Vec<String>,
     opts: &'o PrintOpts,
     next_group: usize,
+    nlit: usize,
 }
 
 impl<'o> P<'o> {
@@ -115,6 +130,10 @@ impl<'o> P<'o> {
     }
     fn backref(&mut self, g: usize) {
         let named = self.opts.any_named();
+        if self.opts.rel_backrefs && self.next_group >= g {
+            self.toks.push(format!("\\k<-{}>", self.next_group - g + 1));
+            return;
+        }
         let tok = match (self.opts.name(g), self.opts.backref_style) {
             (Some(n), 2) => format!("(?P={})", n),
             (Some(n), _) => format!("\\k<{}>", n),
@@ -141,10 +160,28 @@ impl<'o> P<'o> {
                     self.t(")");
                 }
             }
-            Lit(c) => self.toks.push(lit_token(*c)),
+            Lit(c) => {
+                self.nlit += 1;
+                let style = if self.opts.lit_style == 5 { (self.nlit % 5) as u8 } else { self.opts.lit_style };
+                let cp = *c as u32;
+                let tok = match style {
+                    1 if cp < 256 => format!("\\x{:02X}", cp),
+                    2 => format!("\\x{{{:X}}}", cp),
+                    3 if cp < 0x10000 => format!("\\u{:04x}", cp),
+                    4 => format!("\\U{:08X}", cp),
+                    _ if *c == '\n' && self.opts.raw_newline => "\n".to_string(),
+                    _ => lit_token(*c),
+                };
+                self.toks.push(tok)
+            }
             Any => self.t("."),
             AnyNl => {
-                self.t("(?s:");
+                if self.opts.flags_inline {
+                    self.t("(?:");
+                    self.t("(?s)");
+                } else {
+                    self.t("(?s:");
+                }
                 self.t(".");
                 self.t(")");
             }
@@ -165,16 +202,16 @@ impl<'o> P<'o> {
             }
             Perl(c) => self.toks.push(format!("\\{}", c)),
             Assert(a) => match a {
-                A::StartText => self.t("^"),
-                A::EndText => self.t("$"),
-                A::StartLine => {
-                    self.t("(?m:");
-                    self.t("^");
-                    self.t(")");
-                }
-                A::EndLine => {
-                    self.t("(?m:");
-                    self.t("$");
+                A::StartText => self.t(if self.opts.anchors_az { "\\A" } else { "^" }),
+                A::EndText => self.t(if self.opts.anchors_az { "\\z" } else { "$" }),
+                A::StartLine | A::EndLine => {
+                    if self.opts.flags_inline {
+                        self.t("(?:");
+                        self.t("(?m)");
+                    } else {
+                        self.t("(?m:");
+                    }
+                    self.t(if *a == A::StartLine { "^" } else { "$" });
                     self.t(")");
                 }
                 A::WordB => self.t("\\b"),
@@ -221,6 +258,11 @@ impl<'o> P<'o> {
                 self.print(c, 0);
                 self.t(")");
             }
+            Repeat(c, lo, hi, Q::Poss) if self.opts.poss_as_atomic => {
+                self.t("(?>");
+                self.print(&Repeat(c.clone(), *lo, *hi, Q::Greedy), 0);
+                self.t(")");
+            }
             Repeat(c, lo, hi, q) => {
                 if prec > 2 {
                     self.t("(?:");
@@ -234,6 +276,7 @@ impl<'o> P<'o> {
                     (lo, Some(hi)) => format!("{{{},{}}}", lo, hi),
                     (lo, None) => format!("{{{},}}", lo),
                 };
+                let qs = if self.opts.spaced_braces && qs.starts_with('{') { qs.replace('{', "{ ").replace(',', " , ").replace('}', " }") } else { qs };
                 let suffix = match q {
                     Q::Greedy => "",
                     Q::Lazy => "?",
@@ -316,7 +359,12 @@ impl<'o> P<'o> {
                     s.push('-');
                     s.push_str(off);
                 }
-                s.push(':');
+                if self.opts.flags_inline {
+                    s.push(')');
+                    self.t("(?:");
+                } else {
+                    s.push(':');
+                }
                 self.toks.push(s);
                 self.print(c, 0);
                 self.t(")");
@@ -343,7 +391,7 @@ impl Node {
     }
 
     pub fn tokens(&self, opts: &PrintOpts) -> Vec<String> {
-        let mut p = P { toks: Vec::new(), opts, next_group: 0 };
+        let mut p = P { toks: Vec::new(), opts, next_group: 0, nlit: 0 };
         p.print(self, 0);
         p.toks
     }
